@@ -16,6 +16,7 @@ RULE = (
     "op `exhaust` (top level, or inside a stream's poll) makes every stream poll wake itself and return Pending until "
     "the call returns, as tokio's cooperative budget does; the call must return (the harness reports LIVELOCK after "
     "20000 stream polls within one call), with the receiver woken, and the re-polls must deliver everything."
+    ' Family message-shape (engine world): for every receiving socket type, messages with empty frames (a lone empty message, a message ending in an empty frame, several empty frames, 300-byte frames next to empty ones) arrive (i) while a recv is parked — its own waker is woken and the next poll completes, (ii) before the recv is issued, (iii) one byte at a time with a poll after every byte — recv completes exactly at the last byte.'
 )
 ASSUMPTIONS = [
     "stream wakers follow the kernel-socket discipline (a Pending poll arms one waker, readiness fires and consumes it); the bypass bound is claimed under it only",
@@ -50,12 +51,81 @@ def cases(tier, rng):
     # parked on the old stream — the insert must queue the new stream and wake the receiver
     from vlib import worldgen
     out += worldgen.reconnect_parked_cases()
+    out += message_shape_cases()
     return out
+
+
+SHAPES = [[b""], [b"a1", b""], [b"", b""], [b"", b"", b""], [b""] * 5, [b"x"], [b"", b"x"], [b"k" * 300, b""], [b"", b"k" * 300]]
+
+
+def message_shape_cases():
+    """socket level: `a complete message is available` is decided by the BYTES that have arrived, whatever the message
+    looks like — empty frames, a message that ends in an empty frame, a lone empty message.  The last byte of the message
+    arrives (i) while a recv is parked: it is woken and completes; (ii) before the recv is issued: it completes at once;
+    (iii) one byte at a time with a poll after every byte; afterwards a second, ordinary message follows"""
+    from vlib import worldgen as wg, zmtp
+
+    out = []
+    n = 0
+    for t, pt in wg.FQ_PEER.items():
+        for shape in SHAPES:
+            msg = ([b""] + shape) if t == "REP" else shape
+            if t == "XPUB":
+                msg = shape      # XPUB hands every message of a subscriber to the application verbatim
+            data = zmtp.message(msg)
+            for mode in ("parked", "before", "bytewise"):
+                sc = wg.Script()
+                sc.sock(1, t)
+                sc.attach(1, 1, pt, b"peer")
+                sc.attach(1, 2, pt, b"other")
+                f = sc.fut()
+                if mode == "parked":
+                    sc.add(f"recv {f} 1", f"poll {f}", f"reveal 1 {wg.hx(data)}", f"woken {f}", f"poll {f}")
+                elif mode == "before":
+                    sc.add(f"reveal 1 {wg.hx(data)}", f"recv {f} 1", f"poll {f}")
+                else:
+                    sc.add(f"recv {f} 1", f"poll {f}")
+                    for i in range(len(data)):
+                        sc.add(f"reveal 1 {wg.hx(data[i:i + 1])}", f"poll {f}")
+                sc.add(f"drop {f}")
+                tail = [b"", b"tail"] if t == "REP" else [b"tail"]
+                sc.reveal_msg(2, tail)
+                g = sc.fut()
+                sc.add(f"recv {g} 1", f"poll {g}", f"drop {g}")
+                c = sc.case(f"message-shape-{t}-{mode}#{n}", ["message-shape"])
+                want = {"REP": shape, "ROUTER": [b"peer"] + shape}.get(t, msg)
+                c.expect = ("message-shape", f, want, mode)
+                out.append(c)
+                n += 1
+    return out
+
+
+def message_shape_oracle(case, lines):
+    from vlib import worldgen as wg
+
+    _, f, want, mode = case.expect
+    res = list(zip(case.ops, lines[1:]))
+    if any("PANIC" in l for _, l in res):
+        return "the library panicked"
+    polls = [l for op, l in res if op == f"poll {f}"]
+    wantl = "ready ok M[" + wg.show_frames(want) + "]"
+    if polls[-1] != wantl:
+        return (f"every byte of the message {wg.show_frames(want)} had arrived, but recv ({mode}) answered {polls[-1]} — a "
+                "complete message is available and the call does not complete")
+    if mode == "parked":
+        wk = [l for op, l in res if op == f"woken {f}"]
+        if wk != ["woken yes"]:
+            return f"recv was parked when the last byte of the message arrived and was not woken: {wk}"
+    if mode == "bytewise" and any(l.startswith("ready") for l in polls[:-1]):
+        return f"recv completed before the last byte of the message had arrived: {polls}"
+    return None
 
 
 def oracle(case, lines):
     if case.engine == "world":
         from vlib import worldgen
+        if case.expect and case.expect[0] == "message-shape":
+            return message_shape_oracle(case, lines)
         return worldgen.reconnect_parked_oracle(case, lines)
     if any(l.startswith(("PANIC", "ABORT", "TIMEOUT")) for l in lines):
         return "the fair queue panicked"
